@@ -64,6 +64,7 @@ def translate(line, out):
     nreaders = 0
     nwriters = 0
     slot_key = {}
+    created = True
 
     def split_out(o):
         toks = o.split()
@@ -86,6 +87,20 @@ def translate(line, out):
         if toks[0] != name and not (name in ("fault",) and toks[0] == "f") and not (name == "cfg" and toks[0] == "c"):
             raise Untranslatable("unexpected output %r for %r" % (o, op))
         ev_toks = [x for x in toks[1:] if x[0] in "!AM" and (":" in x or "=" in x)]
+        if name == "W" and len(toks) >= 2 and toks[1] == "E8" and nwriters == 0:
+            # create_datawriter refused the QoS (InconsistentPolicy): nothing else can happen
+            nwriters += 1
+            created = False
+            m = dict(W_DEFAULTS)
+            m.update(kv(t[3:]))
+            qos = m
+            continue
+        if not created:
+            if len(toks) >= 2 and toks[1] == "NOENT":
+                continue
+            if name in ("SUB", "R", "net", "adv", "mark", "clr", "rel", "fault", "t", "r", "tr", "th", "sent", "cfg", "sm"):
+                continue
+            raise Untranslatable("op on a writer that was not created: " + o)
         if name in ("P", "T", "PUB", "SUB", "W", "R"):
             if len(toks) < 2 or toks[1] != "0":
                 raise Untranslatable("setup failed: " + o)
@@ -199,7 +214,7 @@ def translate(line, out):
         raise Untranslatable("unknown op " + name)
     if qos is None:
         raise Untranslatable("no writer")
-    return {"keyed": keyed, "en0": en0, "qos": qos, "evs": evs, "hist": hist, "recv": recv,
+    return {"created": created, "keyed": keyed, "en0": en0, "qos": qos, "evs": evs, "hist": hist, "recv": recv,
             "slot_key": slot_key, "matched": matched}
 
 
@@ -236,7 +251,7 @@ def case_term(c, out):
         evs.append("(mkEv %s (%s), mkOut %s %s)" % (cz(now), op, imm_term(imm), d))
     hist = "None" if tr["hist"] is None else "(Some %s)" % clist([cz(x) for x in tr["hist"]])
     recv = "None" if tr["recv"] is None else "(Some %s)" % clist([cz(x) for x in tr["recv"]])
-    return "mkWC %s %s %s %s %s %s" % (cbool(tr["keyed"]), cbool(tr["en0"]), qos_term(tr["qos"]),
+    return "mkWC %s %s %s %s %s %s %s" % (cbool(tr["created"]), cbool(tr["keyed"]), cbool(tr["en0"]), qos_term(tr["qos"]),
                                        clist(evs), hist, recv)
 
 
